@@ -1,4 +1,5 @@
 import CryoCat.Lemmas.C16_Filter
+import CryoCat.Lemmas.C16_Dft23
 /-! C16 — property theorems (only theorems and non-vacuity examples).
 
 "Dose filtering multiplies every spatial-frequency component f (cycles per Angstrom, from pixel size and image
@@ -21,6 +22,101 @@ theorem constants_documented :
     (Gen.C16.ggB.1 * 1000 = -1665 * Gen.C16.ggB.2 ∧ 0 < Gen.C16.ggB.2) ∧
     (Gen.C16.ggC.1 * 100 = 281 * Gen.C16.ggC.2 ∧ 0 < Gen.C16.ggC.2) := by decide
 
+/-- the signatures, in particular the DEFAULT values the statement's call patterns rely on: `output_file=None` (nothing is
+written unless asked), `input_order='xyz'`, `output_order='xyz'`, and `sort_mdoc=True` of the dose loader (an `.mdoc` is
+re-sorted by tilt angle before doses are paired with images).  The correspondence run omits each keyword in ~30 % of
+the calls and expects exactly these values. -/
+theorem defaults_documented :
+    Gen.C16.stackSig = "dose_filter(tilt_stack,pixel_size,total_dose,output_file=None,input_order='xyz',output_order='xyz')" ∧
+    Gen.C16.singleSig = "dose_filter_single_image(image,dose,freq_array)" ∧
+    Gen.C16.doseLoadSig = "total_dose_load(input_dose,sort_mdoc=True)" ∧
+    Gen.C16.tsInit = "TiltStack(tilt_stack=tilt_stack,input_order=input_order,output_order=output_order)" := by decide
+
+/-- the WHOLE body of `dose_filter_single_image` (statement kinds and expressions, locals renamed to their documented
+names by order of first binding, docstring and `print` dropped): no statement besides the ones `doseFilterSingle` models —
+in particular no second write to `q`, `ft` (element stores, augmented assignments) -/
+theorem single_image_body_documented :
+    Gen.C16.singleBody =
+      ["a=0.245", "b=-1.665", "c=2.81",
+       "ft=np.fft.fftshift(np.fft.fft2(image))",
+       "q=np.exp(-dose/(2*(a*freq_array**b+c)))",
+       "filtered_image=np.fft.ifft2(np.fft.ifftshift(ft*q))",
+       "return filtered_image.real"] := by rfl
+
+/-- the WHOLE body of `dose_filter`: load, frequency array (zeros, centres, steps, double loop with ONE element store), a
+private writable copy of the data (`np.array(ts.data, copy=True)`: the caller's stack is never written), the per-tilt
+loop, optional write-out, return in the requested order — nothing else -/
+theorem dose_filter_body_documented :
+    Gen.C16.stackBody =
+      ["ts=TiltStack(tilt_stack=tilt_stack,input_order=input_order,output_order=output_order)",
+       "pixel_size=float(pixel_size)",
+       "total_dose=ioutils.total_dose_load(total_dose)",
+       "frequency_array=np.zeros((ts.height,ts.width))",
+       "cen_x=ts.width//2",
+       "cen_y=ts.height//2",
+       "rstep_x=1/(ts.width*pixel_size)",
+       "rstep_y=1/(ts.height*pixel_size)",
+       "for x in range(ts.width)",
+       ".for y in range(ts.height)",
+       "..d=np.sqrt((x-cen_x)**2*rstep_x**2+(y-cen_y)**2*rstep_y**2)",
+       "..frequency_array[y,x]=d",
+       "ts.data=np.array(ts.data,copy=True)",
+       "for z in range(ts.n_tilts)",
+       ".image=ts.data[z,:,:]",
+       ".ts.data[z,:,:]=dose_filter_single_image(image,total_dose[z],frequency_array)",
+       "ts.write_out(output_file)",
+       "return ts.correct_order()"] := by rfl
+
+/-- the WHOLE body of `ioutils.total_dose_load`, including the branch the correspondence run never executes (Warp `.xml`):
+arrays pass through, lists through `np.asarray`, `.csv` gives `CorrectedDose` of the rows not `Removed`, `.mdoc` is sorted
+by tilt angle and gives `ExposureDose + PriorRecordDose` (or `ExposureDose · (rank by DateTime + 1)` restored to tilt
+order), any other path is read one value per line -/
+theorem total_dose_load_body_documented :
+    Gen.C16.doseLoadBody =
+      ["if isinstance(input_dose,np.ndarray)",
+       ".return input_dose",
+       "else",
+       ".if isinstance(input_dose,list)",
+       "..return np.asarray(input_dose)",
+       ".else",
+       "..if isinstance(input_dose,str)",
+       "...if input_dose.endswith('.csv')",
+       "....df=pd.read_csv(input_dose,index_col=0)",
+       "....if 'CorrectedDose'indf.columns",
+       ".....if 'Removed'indf.columns",
+       "......return df.loc[df['Removed']==False,'CorrectedDose'].astype(np.single).to_numpy()",
+       ".....else",
+       "......return df['CorrectedDose'].astype(np.single).to_numpy()",
+       "....else",
+       ".....raise ValueError",
+       "...else",
+       "....if input_dose.endswith('.mdoc')",
+       ".....mdoc_file=mdoc.Mdoc(input_dose)",
+       ".....if sort_mdoc",
+       "......mdoc_file.sort_by_tilt(reset_z_value=False)",
+       ".....image_dose=mdoc_file.get_image_feature('ExposureDose').values",
+       ".....if 'PriorRecordDose'inmdoc_file.imgs",
+       "......prior_dose=mdoc_file.get_image_feature('PriorRecordDose').values",
+       "......total_dose=image_dose+prior_dose",
+       "......return total_dose",
+       ".....else",
+       "......mdoc_file.imgs['original_order']=range(len(mdoc_file.imgs))",
+       "......mdoc_file.imgs['DateTime']=pd.to_datetime(mdoc_file.imgs['DateTime'])",
+       "......sorted_df=mdoc_file.imgs.sort_values('DateTime')",
+       "......sorted_df.reset_index(drop=True,inplace=True)",
+       "......sorted_df['total_dose']=sorted_df['ExposureDose']*(sorted_df.index+1)",
+       "......result_df=sorted_df.sort_values('original_order').drop(columns=['original_order'])",
+       "......return result_df['total_dose'].values",
+       "....else",
+       ".....if input_dose.endswith('.xml')",
+       "......total_dose=get_data_from_warp_xml(input_dose,'Dose',node_level=1)",
+       "......return total_dose",
+       ".....else",
+       "......total_dose=one_value_per_line_read(input_dose)",
+       "......return total_dose",
+       "..else",
+       "...raise ValueError"] := by rfl
+
 /-- the constants the model computes with, at the reals, are the statement's -/
 theorem constants_real : gg realOps = { a := 0.245, b := -1.665, c := 2.81 } := gg_real
 
@@ -39,7 +135,7 @@ theorem frequency_array_documented :
     Gen.C16.cenX = "ts.width//2" ∧ Gen.C16.cenY = "ts.height//2" ∧
     Gen.C16.rstepX = "1/(ts.width*pixel_size)" ∧ Gen.C16.rstepY = "1/(ts.height*pixel_size)" ∧
     Gen.C16.freqExpr = "np.sqrt((x-cen_x)**2*rstep_x**2+(y-cen_y)**2*rstep_y**2)" ∧
-    Gen.C16.freqStore = "frequency_array[y,x]=d" ∧
+    Gen.C16.freqStore = "frequency_array[y,x]=d" ∧ Gen.C16.freqInit = "np.zeros((ts.height,ts.width))" ∧
     Gen.C16.loopRangeX = "range(ts.width)" ∧ Gen.C16.loopRangeY = "range(ts.height)" := by decide
 
 /-- image `z` is filtered with `total_dose[z]`, doses given as arrays/lists pass through `total_dose_load` unchanged —
@@ -218,6 +314,16 @@ end image
 
 /-- a Fourier service obeying `IsDFT` exists (the 1 × 2 DFT), so the image-level theorems are not vacuous -/
 example : IsDFT dft12 := dft12_isDFT
+/-- ... and one with generic content: the exact 2 × 3 DFT of real images (complex coefficients, twiddle `e^{-2πi/3}`, the
+Hermitian pair `u = 1 ↔ u = 2`; `Lemmas/C16_Dft23`; probe `dft23-is-numpy-fft2` compares its formula with numpy) -/
+example : IsDFT dft23 := dft23_isDFT
+/-- the image-level theorems instantiated there: a 2 × 3 image filtered with doses 30 and then 12 at 1.5 Å/pixel -/
+example (x : Img23) : filt dft23 1.5 12 (filt dft23 1.5 30 x) = filt dft23 1.5 42 x := by
+  have := filter_compose dft23_isDFT 1.5 30 12 x; norm_num at this ⊢; exact this
+example (x : Img23) (v : Fin 2) (u : Fin 3) :
+    dft23.fft2 (filt dft23 1.5 30 x) v u = Cx.smul (G 3 2 1.5 30 v u) (dft23.fft2 x v u) := filter_spectrum dft23_isDFT 1.5 30 x v u
+/-- the twiddle tables of `dft23` are the cosines / sines of the cube roots of unity -/
+example : cos3 1 = Real.cos (2 * Real.pi / 3) ∧ sin3 1 = Real.sin (2 * Real.pi / 3) := ⟨cos3_one, sin3_one⟩
 example : filt dft12 2 0 (3, 5) = (3, 5) := filter_zero_dose dft12_isDFT 2 (3, 5)
 /-- a non-DC coefficient of a 6 × 5 image (`u = 3` is the Nyquist column, `v = 4` has signed frequency −1) -/
 example : (3 < 6 ∧ 4 < 5) ∧ ¬ (sfreq 6 3 = 0 ∧ sfreq 5 4 = 0) ∧ sfreq 6 3 = -3 ∧ sfreq 5 4 = -1 := by decide
